@@ -221,6 +221,62 @@ func runC12(c *Collector, r *Rng, thorough bool) {
 			}
 		}
 	}
+	// a message is returned only with a nil error: envelopes that a verifier accepts but that break one rule each (digest
+	// of another length, 258 missing, 258 in the unprotected bucket, content type present, 259 not text / uint) give
+	// an error and NO message
+	{
+		mkEnv := func(pm, um *W, digest []byte) []byte {
+			return wTag(18, -1, wArr(-1, wBstr(pm.Ser(), -1), um, wBstr(digest, -1), wBstr([]byte{1, 2, 3}, -1))).Ser()
+		}
+		good := func() *W { return wMap(-1, wInt(1, -1), wInt(-7, -1), wInt(258, -1), wInt(-16, -1)) }
+		type bc struct {
+			name string
+			env  []byte
+		}
+		var cases []bc
+		for _, ln := range []int{0, 1, 31, 33, 48, 64} {
+			cases = append(cases, bc{fmt.Sprintf("digest of %d octets under SHA-256", ln), mkEnv(good(), wMap(-1), make([]byte, ln))})
+		}
+		cases = append(cases,
+			bc{"258 missing", mkEnv(wMap(-1, wInt(1, -1), wInt(-7, -1)), wMap(-1), make([]byte, 32))},
+			bc{"258 in the unprotected bucket too", mkEnv(good(), wMap(-1, wInt(258, -1), wInt(-16, -1)), make([]byte, 32))},
+			bc{"content type in the protected bucket", mkEnv(wMap(-1, wInt(1, -1), wInt(-7, -1), wInt(3, -1), wInt(0, -1), wInt(258, -1), wInt(-16, -1)), wMap(-1), make([]byte, 32))},
+			bc{"259 a byte string", mkEnv(wMap(-1, wInt(1, -1), wInt(-7, -1), wInt(258, -1), wInt(-16, -1), wInt(259, -1), wBstr([]byte{1}, -1)), wMap(-1), make([]byte, 32))},
+			bc{"unknown hash algorithm", mkEnv(wMap(-1, wInt(1, -1), wInt(-7, -1), wInt(258, -1), wInt(-999, -1)), wMap(-1), make([]byte, 32))},
+		)
+		for _, cs := range cases {
+			vf := &spyVerifier{alg: -7}
+			var m *cose.Sign1Message
+			var err error
+			if p, _ := protect(func() { m, err = cose.VerifyHashEnvelope(vf, cs.env) }); p {
+				continue
+			}
+			c.Eval("message-only-with-nil-error", cs.name, true)
+			if err != nil && m != nil {
+				c.Fail("C12/accepted-unverified", fmt.Sprintf("VerifyHashEnvelope returned an error (%v) together with a message for an envelope with: %s", err, cs.name), map[string]any{"data": hx(cs.env)})
+			}
+		}
+	}
+	// the caller's Headers with retained unprotected bytes that are empty but not nil (a buffer reset for reuse) next to
+	// typed parameters: the envelope is a COSE_Sign1 with a map in the unprotected position, accepted by VerifyHashEnvelope
+	for ri, raw := range [][]byte{{}, make([]byte, 0, 16), nil} {
+		h := cose.Headers{Protected: cose.ProtectedHeader{cose.HeaderLabelAlgorithm: cose.AlgorithmES256}, Unprotected: cose.UnprotectedHeader{int64(4): []byte("kid")}, RawUnprotected: raw, RawProtected: pick(r, [][]byte{nil, {}})}
+		out, err := cose.SignHashEnvelope(nil, &spySigner{alg: -7, kind: SOk, sig: []byte{1, 2}}, h, cose.HashEnvelopePayload{HashAlgorithm: cose.AlgorithmSHA256, HashValue: make([]byte, 32)})
+		c.Eval("empty-non-nil-raw-buckets", fmt.Sprint(ri), true)
+		if err != nil {
+			continue
+		}
+		rep := map[string]any{"out": hx(out), "raw_unprotected_nil": raw == nil}
+		if w, perr := refParseFull(out); perr != nil || len(w.Kids) != 1 || len(w.Kids[0].Kids) != 4 || w.Kids[0].Kids[1].Maj != 5 {
+			c.Fail("C12/not-a-sign1", "SignHashEnvelope returned bytes whose unprotected position does not hold a map: "+hx(out), rep)
+			continue
+		}
+		if m, verr := cose.VerifyHashEnvelope(&spyVerifier{alg: -7}, out); verr != nil || m == nil {
+			c.Fail("C12/verify-refused", fmt.Sprintf("an envelope produced from headers whose retained unprotected bytes are empty but not nil is refused: %v", verr), rep)
+		} else if kid, _ := m.Headers.Unprotected[int64(4)].([]byte); string(kid) != "kid" {
+			c.Fail("C12/not-the-given-values", "the caller's unprotected kid is not in the envelope", rep)
+		}
+	}
 	// envelopes whose buckets hold 0 .. 40 additional parameters (the protected one crosses 15 / 16 / 23 / 24 entries,
 	// where the map head changes its form): what SignHashEnvelope produces, VerifyHashEnvelope accepts
 	for _, where := range []string{"protected", "unprotected", "both"} {
@@ -580,14 +636,19 @@ func c13Values() []hvalue {
 	return []hvalue{
 		{"uint", int64(7), wUint(7, -1)},
 		{"nint", int64(-7), wInt(-7, -1)},
-		{"uint-typed", uint16(7), nil},
-		{"Algorithm-typed", cose.AlgorithmES256, nil},
+		{"uint-typed", uint16(7), wUint(7, -1)},
+		{"uint8-typed", uint8(5), wUint(5, -1)},
+		{"uint-typed-plain", uint(24), wUint(24, -1)},
+		{"uint64-typed", uint64(300), wUint(300, -1)},
+		{"int8-typed", int8(-7), wInt(-7, -1)},
+		{"Algorithm-typed", cose.AlgorithmES256, wInt(-7, -1)},
 		{"tstr-media", "text/plain", wTstr("text/plain", -1)},
 		{"tstr-plain", "plain", wTstr("plain", -1)},
 		{"tstr-empty", "", wTstr("", -1)},
 		{"tstr-space", " a/b", wTstr(" a/b", -1)},
 		{"bstr", []byte{1, 2}, wBstr([]byte{1, 2}, -1)},
 		{"bstr-empty", []byte{}, wBstr([]byte{}, -1)},
+		{"bstr-nil", []byte(nil), nil}, // a nil byte slice would be written as null: not a bstr (F12)
 		{"bool", true, wBool(true)},
 		{"null", nil, wNull()},
 		{"array-empty", []any{}, wArr(-1)},
@@ -597,6 +658,9 @@ func c13Values() []hvalue {
 		{"map", map[any]any{int64(1): int64(2)}, wMap(-1, wUint(1, -1), wUint(2, -1))},
 		{"countersignature", cs, csW},
 		{"countersignature-list", []*cose.Countersignature{cs}, wArr(-1, csW)},
+		{"countersignature-list-of-2", []*cose.Countersignature{cs, cs}, wArr(-1, csW, csW)},
+		{"countersignature-list-of-3", []*cose.Countersignature{cs, cs, cs}, wArr(-1, csW, csW, csW)},
+		{"countersignature-list-of-4", []*cose.Countersignature{cs, cs, cs, cs}, wArr(-1, csW, csW, csW, csW)},
 		{"countersignature-list-empty", []*cose.Countersignature{}, wArr(-1)},
 		{"countersignature-list-nil", []*cose.Countersignature{nil}, wArr(-1, wNull())},
 		{"float", 1.5, wFloat64(1.5)},
